@@ -19,7 +19,7 @@ from props import c01, c07
 
 REQUIRED = ['perm_invariant', 'perm_invariant_strata', 'perm_invariant_snm', 'perm_invariant_counts',
             'frame_perm_invariant', 'relabel_invariant', 'relabel_invariant_counts', 'iptw_weight_flip',
-            'flip_treatment', 'flip_measures', 'flip_variance', 'flip_frame', 'outcome_affine',
+            'flip_treatment', 'flip_measures', 'flip_variance', 'flip_frame', 'stoch_invariant', 'outcome_affine',
             'outcome_affine_variance', 'tmle_unit_affine_pos', 'tmle_unit_affine_neg', 'tmle_ate_affine', 'snm_affine',
             'snm1_affine', 'snm_flip', 'score_reparam', 'score_reparam_affine']
 RULE = ('pairs (data set, transformed data set) for each estimator class of the property: data = 2 categorical '
@@ -31,8 +31,8 @@ RULE = ('pairs (data set, transformed data set) for each estimator class of the 
         'all-equal / named, affine map of X (a of both signs), relabelled category codes (C(.) formulas; reference '
         'level changes), 1-A (targets, plans and probabilities recoded accordingly), cY+d with c of both signs. '
         'distinct = (data hash, class, options, transformation); non-trivial = the transformation really changes what '
-        'the class receives (labels/order/codes/values differ) and the estimate depends on the adjustment '
-        '(adjusted != crude)')
+        'the class receives (row order / index labels / codes / values differ from the original frame); X, the '
+        'categorical covariates, treatment and outcome are associated by construction')
 ASSUMPTIONS = ['statsmodels GLM / GEE fits are equivariant under reparametrisation of the design (row order, affine '
                'column maps, change of reference level, A -> 1-A, Gaussian Y -> cY+d): measured on every pair by a '
                'reference fit made by the harness on both members (fitted values agree to 1e-7); a pair is discarded '
@@ -378,7 +378,19 @@ def run_stoch(df, spec, opt):
     pc = [0.2, 0.65]
     s.fit(p=[1 - q for q in pc] if fl else pc, conditional=["df['L1']==%d" % code, "df['L1']!=%d" % code])
     o.put('marginal_cond', 'mean', s.marginal_outcome)
+    o.est, o.p = s, ((1 - p) if fl else p)
     return o
+
+
+def k_stoch(drv, o, base, rel, spec, opt):
+    s, b = o.est, base.est
+    n = len(b.df)
+    if len(s.df) != n or (rel.get('perm') is not None and len(rel['perm']) != n):
+        return None, None
+    rep, _ = drv.ask('xstoch', c='f', p=enc_list(np.full(n, o.p), fx), pi=enc_list(to_orig(s._pdenom_, rel, n), fx),
+                     **rows_kw(b.df), **xargs(rel))
+    ok = rep['status'] == 'ok' and allclose([unfx(rep['m'])], o['marginal'][1], 1e-10, 1e-12)
+    return ok, rep
 
 
 def run_gf(df, spec, opt):
@@ -719,7 +731,7 @@ def k_measure(drv, o, base, rel, spec, opt):
 POINT_T = ['perm', 'permkeep'] + INDEX_KINDS + ['affx+', 'affx-', 'relabel', 'flip']
 CLASSES = {
     'IPTW': (run_iptw, k_iptw, POINT_T + ['affy+', 'affy-']),
-    'StochasticIPTW': (run_stoch, None, POINT_T + ['affy+', 'affy-']),
+    'StochasticIPTW': (run_stoch, k_stoch, POINT_T + ['affy+', 'affy-']),
     'TimeFixedGFormula': (run_gf, k_gf, POINT_T + ['affy+', 'affy-']),
     'AIPTW': (run_aiptw, k_aiptw, POINT_T + ['affy+', 'affy-']),
     'TMLE': (run_tmle, None, POINT_T + ['affy+', 'affy-']),
@@ -1055,6 +1067,24 @@ def run(chk, drv, rng, tier):
             seed = int(rng.integers(0, 2 ** 31))
             tseed = int(rng.integers(0, 2 ** 31))
             run_pairs(chk, drv, cls, opt, seed, ALL_T, tseed)
+    if tier != 'quick':
+        snm_outside_domain(chk, rng)
+
+
+def snm_outside_domain(chk, rng):
+    """information only (DESIGN section 5): with an SNM modifier that is NOT in the exposure model the shift d does not
+    drop out of g-estimation -- a property of the estimator, outside the domain of the property; run and recorded"""
+    from zepid.causal.snm import GEstimationSNM
+    df, spec = make('point', int(rng.integers(0, 2 ** 31)), ytype='normal')
+    out = {}
+    for name, d in (('Y', df), ('3Y+10', df.assign(Y=3 * df['Y'] + 10))):
+        s = GEstimationSNM(d, exposure='A', outcome='Y')
+        s.exposure_model(COVF, print_results=False)          # B omitted
+        s.structural_nested_model('A + A:B')
+        s.fit()
+        out[name] = [float(v) for v in s.psi]
+    out['psi(3Y+10)/3'] = [v / 3 for v in out['3Y+10']]
+    chk.extra['snm_modifier_not_in_exposure_model(information, not judged)'] = out
 
 
 def replay(rec):
